@@ -8,16 +8,17 @@ SPEC = {
                   "thorough": ["-mode", "merkle", "-maxn", "33", "-full", "33", "-rounds", "4"]},
          "search_args": ["-mode", "merkle", "-maxn", "40", "-full", "16", "-rounds", "3"]},
         {"name": "bind", "cmd": "stateless",
-         "args": {"quick": ["-mode", "bind", "-rounds", "6"],
+         "args": {"quick": ["-mode", "bind", "-rounds", "2"],
                   "thorough": ["-mode", "bind", "-rounds", "60"]},
          "search_args": ["-mode", "bind", "-rounds", "40"]},
     ],
     "trusted_base": [
         "Coq 8.16.1 kernel (coqc; coqchk in the thorough tier); no native_compute",
-        "harness/cmd/stateless + verif-tagged go/consensus/cometbft/stateless/export_verif.go (drives the real merkle.ProofsForTransactions / VerifyTransaction / RootHashOfTransactions and verifyBlock, verifyBlockResults, verifyTransactions, verifyTransactionProof, verifyNextValidators, verifyParameters, stateRootFromBlockTxs) + verif-tagged go/consensus/cometbft/light/export_verif.go (a light.Client over an in-memory trusted store preloaded with given light blocks and offline providers; used to drive the public Core.GetBlockResults / GetTransactionsWithResults / StateRoot at heights latest-2, latest-1, latest)",
+        "harness/cmd/stateless + verif-tagged go/consensus/cometbft/stateless/export_verif.go (drives the real merkle.ProofsForTransactions / VerifyTransaction / RootHashOfTransactions and verifyBlock, verifyBlockResults, verifyTransactions, verifyTransactionProof, verifyNextValidators, verifyParameters, stateRootFromBlockTxs) + verif-tagged go/consensus/cometbft/light/export_verif.go (a light.Client over an in-memory trusted store preloaded with given light blocks and offline providers; used to drive the public Core API: GetBlock / GetTransactions / GetTransactionsWithProofs / GetParameters / GetValidators / SubmitTxWithProof / GetBlockResults / GetTransactionsWithResults / StateRoot at heights latest-2, latest-1, latest and unverifiable ones, with an untrusted provider stub)",
         "the harness as abstraction function: it decodes every (altered) response with the same CBOR / protobuf decoders the code uses and hands the decoded fields to the model (decoders are abstract in the model); error texts are mapped to a verdict enum",
+        "verifharness/internal/muxdrv: blocks executed on the real ABCI multiplexer (signed transfers, proposer metadata transaction, real results and state) are wrapped into CometBFT-style headers by the harness (placeholder commit signatures) and fed to the same streams; state reads (GetParameters with the real light query factory over the executed state and a tampering read syncer) are checked by the harness oracle only",
         "vm_compute evaluation of Verif.Stateless.Merkle / Bind on the recorded cases with H instantiated by the finite table of (preimage, SHA-256 digest) pairs computed by the harness for that case (a missing entry yields a value that is not a byte string); case files use primitive 63-bit integer literals for byte strings (Stateless/Hex.v)",
-        "modelled, not driven by the harness: the LRU caches (a fresh Core per case), GetBlock / GetTransactions / GetValidators / GetParameters wrappers (only their verify functions are driven); not modelled: the light client's own header verification (CometBFT), protobuf / CBOR encodings, services.go",
+        "modelled, not driven by the harness: the LRU caches (a fresh Core per case), WatchBlocks / handleNewBlock, GetLatestHeight / resolveHeight(HeightLatest); not modelled: the light client's own header verification (CometBFT), protobuf / CBOR encodings, services.go",
     ],
     "assumptions": [
         "the hash function has a fixed output length (premise H_len of the theorems; true of SHA-256); injectivity is never assumed, conclusions are '... or a collision of H is exhibited'",
